@@ -10,17 +10,18 @@ import (
 // replayers maps a property id to the function that re-executes a saved scenario of that
 // property without rapid (same executor, same oracle).
 var replayers = map[string]func(t *testing.T, path string){
-	"C01": func(t *testing.T, p string) { core.Replay(t, propC01, p) },
-	"C02": func(t *testing.T, p string) { core.Replay(t, propC02, p) },
-	"C03": func(t *testing.T, p string) { core.Replay(t, propC03, p) },
-	"C04": func(t *testing.T, p string) { core.Replay(t, propC04, p) },
-	"C05": func(t *testing.T, p string) { core.Replay(t, propC05, p) },
-	"C16": func(t *testing.T, p string) { core.Replay(t, propC16, p) },
-	"C18": func(t *testing.T, p string) { core.Replay(t, propC18, p) },
-	"C14": func(t *testing.T, p string) { core.Replay(t, propC14, p) },
+	"C01":         func(t *testing.T, p string) { core.Replay(t, propC01, p) },
+	"C02":         func(t *testing.T, p string) { core.Replay(t, propC02, p) },
+	"C03":         func(t *testing.T, p string) { core.Replay(t, propC03, p) },
+	"C04":         func(t *testing.T, p string) { core.Replay(t, propC04, p) },
+	"C05":         func(t *testing.T, p string) { core.Replay(t, propC05, p) },
+	"C16":         func(t *testing.T, p string) { core.Replay(t, propC16, p) },
+	"C18":         func(t *testing.T, p string) { core.Replay(t, propC18, p) },
+	"C19":         func(t *testing.T, p string) { core.Replay(t, propC19, p) },
+	"C14":         func(t *testing.T, p string) { core.Replay(t, propC14, p) },
 	"C15/decoder": func(t *testing.T, p string) { core.Replay(t, propC15Dec, p) },
 	"C15/grammar": func(t *testing.T, p string) { core.Replay(t, propC15Grammar, p) },
-	"C17": func(t *testing.T, p string) { core.Replay(t, propC17, p) },
+	"C17":         func(t *testing.T, p string) { core.Replay(t, propC17, p) },
 }
 
 // TestReplay re-executes $VERIF_REPLAY.
